@@ -446,6 +446,24 @@ def gen_var(tier, seed, kind):
                 cases.append("EFI f%d %s %d %d %d | %s | %s" % (cid, cfg["name"], cfg["kbits"], cfg["eps"], cfg["fdouble"],
                                                               " ".join(map(str, keys)), " ".join(map(str, qs))))
             stats["styles"]["fullspan"] = stats["styles"].get("fullspan", 0) + 1
+        # Elias-Fano: hundreds of segment keys clustered at the bottom of the universe, a few far above, so that the high
+        # bit vector has runs of hundreds of empty buckets (several 64-bit words of zeros) and the queries inside the gap
+        # make pred() scan back over all of them (seeded change C10e: back-scan limited to two words)
+        if kind != "BK" and cfg["kbits"] >= 32 and cfg["eps"] <= 8:
+            for j in range(1 if tier == "quick" else 3):
+                c, S = 2 * cfg["eps"] + 4, rng.choice([200, 330])
+                G = rng.choice([3, 10]) * c
+                keys = [s * (c + G) + t for s in range(S) for t in range(c)]
+                end = keys[-1]
+                far0 = end * rng.choice([150, 1000, 40000]) + rng.randrange(0, 1000)
+                far = sorted(far0 + rng.randrange(0, end) for _ in range(rng.choice([1, 3, 40])))
+                keys = sorted(k for k in keys + far if k <= hi - 1)
+                gapq = [end + 1 + (far0 - end) * t // 97 for t in range(1, 97)] + [far[-1] + 1, far[-1] + end]
+                qs = [q for q in gapq if q <= hi - 1] + gen_queries(rng, cfg["kbits"], 0, keys, 30)
+                cid += 1
+                cases.append("EFI f%d %s %d %d %d | %s | %s" % (cid, cfg["name"], cfg["kbits"], cfg["eps"], cfg["fdouble"],
+                                                              " ".join(map(str, keys)), " ".join(map(str, qs))))
+                stats["styles"]["emptyrun"] = stats["styles"].get("emptyrun", 0) + 1
     return cases, stats
 
 
